@@ -3,7 +3,7 @@ META = dict(
     rule=('stateless exploration of thread schedules on the real code under a cooperative scheduler over real OS threads: 2 and 3 threads, each owning one sandbox object '
           'of the same backend type and running the script create / malloc / example-based pointer store+load / register callback / invoke a guest function that yields '
           'and calls the callback (which checks its sandbox reference and performs a nested invocation) / unregister / free / destroy / create again / ... / destroy; '
-          'scheduling points at every acquire and release of RLBox\'s shared locks (own lock type through RLBOX_USE_CUSTOM_SHARED_LOCK) and at yields inside mbox backend '
+          'scheduling points at every acquire and release of RLBox\'s shared locks (own lock type through RLBOX_USE_CUSTOM_SHARED_LOCK; a second build keeps the library\'s DEFAULT lock macros and interposes the pthread rwlock operations they end in) and at yields inside mbox backend '
           'entry points, guest functions and callbacks; all schedules with at most 2 preemptions (thorough: 3 for two threads) are enumerated depth-first (choice 0 = keep '
           'running). Oracle per schedule: each thread\'s observation sequence equals its solo run; no deadlock; no vector-clock race on the RLBOX_VERIF_SHARED accesses '
           'to the process-wide sandbox list; a replayed prefix that does not fit is a hard error. Backends: mbox in registry mode (the list is on the hot path of every '
@@ -16,14 +16,16 @@ META = dict(
 
 def run(ctx):
     specs = [('c18_mbox', 'c18.cpp', dict(opt='-O1', hooks=True, access=True)),
-             ('c18_noop', 'c18.cpp', dict(opt='-O1', hooks=True, access=True, defs=['C18_NOOP']))]
+             ('c18_noop', 'c18.cpp', dict(opt='-O1', hooks=True, access=True, defs=['C18_NOOP'])),
+             # the library's DEFAULT lock macros (std shared mutex), scheduled by interposing the pthread rwlock operations they end in
+             ('c18_mbox_deflock', 'c18.cpp', dict(opt='-O1', hooks=True, access=True, defs=['VS_DEFAULT_LOCKS'], link=['-ldl']))]
     if ctx.thorough:
         specs.append(('c18_tsan', 'c18_tsan.cpp', dict(opt='-O1', hooks=False, access=False, compiler='clang++', flags=['-fsanitize=thread', '-g'])))
     bins = ctx.build_many(specs)
     if ctx.thorough:
-        plan = [('c18_mbox', 2, 3, 2), ('c18_noop', 2, 3, 2), ('c18_mbox', 3, 2, 1), ('c18_noop', 3, 2, 1)]
+        plan = [('c18_mbox', 2, 3, 2), ('c18_noop', 2, 3, 2), ('c18_mbox', 3, 2, 1), ('c18_noop', 3, 2, 1), ('c18_mbox_deflock', 2, 2, 2), ('c18_mbox_deflock', 3, 2, 1)]
     else:
-        plan = [('c18_mbox', 2, 2, 2), ('c18_noop', 2, 2, 2), ('c18_mbox', 3, 2, 1), ('c18_noop', 3, 1, 1)]
+        plan = [('c18_mbox', 2, 2, 2), ('c18_noop', 2, 2, 2), ('c18_mbox', 3, 2, 1), ('c18_noop', 3, 1, 1), ('c18_mbox_deflock', 2, 2, 1)]
     for b, th, bound, ln in plan:
         ctx.run(bins[b], ['--threads', th, '--bound', bound, '--len', ln])
     if ctx.thorough:
